@@ -6,6 +6,8 @@ R1 KEY-DISTINCT (constant-data audit, complete): the 768 piece keys are pairwise
 R2 FOLD-INJECTIVE (from C08.R3): each component enters get_hash through an injective index of its
    own table (piece/square/colour; rights per colour; file; side) -- checked by the C08 rule set,
    re-run here so that C09 stands on its own.
+R3 STORED-HASH (= C08.R1/R2/R5): the stored hash is the xor of the piece keys of exactly the men on the board
+   (single writer, lock-step with the bitboards, single-square call sites).
 Supplementary (reported, not required): all 793 keys globally distinct, no key equal to the xor of
 two others."""
 from .common import *
@@ -72,6 +74,18 @@ def r1(ctx):
     ctx.instance(R, 'supplementary: 793 keys globally distinct=%s, two-key xor coincidences=%d' % (glob, xor2), '')
 
 
+def r3(ctx):
+    """R3 STORED-HASH (= C08.R1/R2/R5): the stored part of the hash is the xor of the piece keys of exactly the men on the
+    board -- written only by the lock-step toggle, with the key of the same (piece, square, colour), every call site
+    passing a single square.  Without it two positions differing in one piece on one square can share a hash."""
+    sub = Sub(ctx, {'C08.R1': 'C09.R3', 'C08.R2': 'C09.R3', 'C08.R5': 'C09.R3'})
+    tog = c08.r1(sub)
+    if tog:
+        c08.r2(sub, tog)
+        c08.r5(sub, tog)
+
+
 def run(ctx):
     r1(ctx)
     c08.r3(ctx, rule='C09.R2')
+    r3(ctx)
